@@ -25,6 +25,9 @@ def hand_bases():
         P(from_("t"), select(item("a"), item("b")), filter_(bin_("&&", bin_(">", a, lit(1)), lit(False)))),
         P(from_("t"), filter_(bin_("&&", lit(True), bin_(">", a, lit(0)))), aggregate(item(agg("count", k), "n"))),
         P(from_("t"), group(["a"], [aggregate(item(agg("sum", b), "s"))]), filter_(bin_("&&", bin_(">", col("s"), lit(0)), bin_("==", lit(1), lit(2))))),
+        # a computed column ahead of table columns, then a group: the partition is `this.*` minus the key
+        P(from_("t"), select(item(bin_("+", a, lit(1)), "x"), item("b"), item("k")), group(["k"], [derive(item(agg("max", b), "m"))])),
+        P(from_("t"), derive(item(bin_("*", b, lit(2)), "y")), select(item("y"), item("a"), item("k")), exclude("k")),
     ]
 
 def check(tier):
@@ -37,7 +40,7 @@ def check(tier):
     g = gen.G(seed(), safe=True, p_join=0.0, p_append=0.0, p_group=0.2)
     want = 50 if tier == "quick" else 500
     tries = 0
-    while len(bases) < 13 + want and tries < want * 4:
+    while len(bases) < 15 + want and tries < want * 4:
         tries += 1
         p = g.program(tries, n=rnd.randint(3, 5), start="t")
         bases.append({"decls": [], "steps": [dict(s, at=[]) for s in p["steps"]]})
@@ -85,8 +88,17 @@ def check(tier):
         rw2 = replay_lines(out)
         rewritten += rnd.sample(rw2, min(len(rw2), 1200))
     progs = []
+    nreordered = 0
     for i, r in enumerate(rewritten):
         progs.append({"id": f"w{i}", "decl": True, "decls": r["decls"], "steps": r["steps"]})
+        if r.get("reordered"):
+            # the specification itself (which transcribes the resolver's `this.*` rule) says this rewrite returns the
+            # columns in another order: the property is broken by design of that rule, not by this one program
+            nreordered += 1
+            if nreordered <= 40:
+                rep.violation({"property": "C06", "kind": "column-order", "base": r["base"], "program": progs[-1],
+                               "note": "RewriteMC: Denote(rewritten) equals Denote(base) only up to the order of the columns"},
+                              {"what": "rewrite-column-order", "decls": len(r["decls"])})
     res = l1check.run(rep, "C06-rw", progs, dbset, {"rows", "order", "frame", "ExecError", "Panic", "rejected-wellformed"})
     st = l1.selftest(os.path.join(ROOT, "corpus", "dbs_quick.json"))
     kinds = {}
